@@ -243,3 +243,44 @@ R.add_field({"StoreLogger"}, "store", "Store", "StoreLogger.store")
 declare_pred("func_module", L.V, L.V, tag="str")
 declare_always_truthy("StoreLogger", "Store")
 L.axiom(T, "func-module-str", L.FA(f, L.is_str(L.fn("func_module", L.V, L.V)(f)), [L.fn("func_module", L.V, L.V)(f)]))
+
+# candidates of the function lookup: arbitrary objects with (maybe) __code__ / __wrapped__
+callee_code = declare_pred("callee_code", L.V, L.V, tag="Opt[Code]")
+declare_always_truthy("Callee")
+R.ATTRS[("Callee", "__code__?")] = lambda ip, r, default: ZV(callee_code(r.term), "Opt[Code]") if isinstance(default, PyC) and default.value is None else (_ for _ in ()).throw(Unsupported("default"))
+R.ATTRS[("Callee", "__wrapped__?")] = lambda ip, r, default: ZV(L.fn("callee_wrapped", L.V, L.V)(r.term), "Opt[Callee]")
+
+
+def _callee_isinstance(ip, r, a, kw, node):
+    c = a[0]
+    name = c.path if isinstance(c, GlobalRef) else ("django_cached_property" if isinstance(c, ZV) else None)
+    if name is None:
+        raise Unsupported("isinstance(Callee, %r)" % (c,))
+    return ZB(L.fn("callee_is_" + name.replace(".", "_"), L.V, L.B)(r.term))
+
+
+R.METHODS[("Callee", "__isinstance__")] = _callee_isinstance
+for _a in ("__func__", "fget", "fset", "fdel", "func"):
+    R.ATTRS[("Callee", _a)] = (lambda a_: lambda ip, r: ZV(L.fn("callee_" + a_, L.V, L.V)(r.term), "Opt[Callee]"))(_a)
+
+
+def _getattr_static3(ip, a, kw, node):
+    if len(a) == 3:
+        return ZV(L.fn("static_attr", L.V, L.V, L.V)(as_v(a[0]), as_v(a[1])), "Opt[Callee]")
+    h = R.EXTERNALS.get("inspect.getattr_static:2")
+    if h:
+        return h.f(ip, a, kw, node)
+    raise Unsupported("getattr_static/2")
+
+
+_prev_gas = R.EXTERNALS.get("inspect.getattr_static")
+if _prev_gas is not None:
+    R.EXTERNALS["inspect.getattr_static:2"] = _prev_gas
+R.EXTERNALS["inspect.getattr_static"] = R.ExtFn(_getattr_static3)
+R.EXTERNALS["builtins.callable"] = R.ExtFn(lambda ip, a, kw, node: ZB(L.fn("is_callable_py", L.V, L.B)(as_v(a[0]))))
+R.METHODS[("Val", "__isinstance__:type")] = None
+prev_locals = declare_pred("prev_locals", L.V, L.V, tag="Seq[Callee]")   # values of f_locals of the frame and of all its callers
+
+# a function object's __code__ is what code_of() denotes on resolved functions (one notion for frames, functions and lookup candidates)
+L.axiom(T, "callee-code-is-code-of", L.FA(f, z3.Implies(callee_code(f) != L.NONE, callee_code(f) == code_of(f)), [callee_code(f)]))
+L.axiom(T, "code-of-not-none", L.FA(f, code_of(f) != L.NONE, [code_of(f)]))
